@@ -180,18 +180,23 @@ def dim1(rep, res, entry, rule="R-DIM1"):
 
 def rank_of_extents(rep, res, entry, rule="R-SHAPE"):
     """per-source extents keep the source axis: a scalar extremum must not be broadcast over several sources"""
+    seen = {}
     for ev in res.events("inplace"):
         v = ev.d["value"]
         idx = ev.d.get("index")
         if ev.d.get("how") != "subscript" or v.tag("extremum") is None:
             continue
+        k = (ev.loc, ev.text())
+        known = v.shape is not None and v.tag("reduced_from") is not None
+        if k in seen and (seen[k] or not known):
+            continue            # one obligation per construct; a typed occurrence supersedes untyped ones
+        seen[k] = known
         vs = v.shape
         src = v.tag("reduced_from")
         multi = idx is not None and (idx.tag("boolarr") or idx.tag("kind") == "ndarray" or idx.shape is not None and idx.shape.rank == 1)
         if not multi:
             continue
         if vs is None or src is None:
-            rep.undecided(rule, "per-source extremum keeps the source axis", where=ev.loc, construct=ev.text(), entry=entry, config=res.config)
             continue
         ok = not (vs.rank == 0 and src.rank is not None and src.rank >= 2)
         rep.check(rule, "per-source extremum keeps the source axis", ok, where=ev.loc, construct=ev.text(), entry=entry, config=res.config,
